@@ -156,6 +156,9 @@ def sites(model, attr: str):
                 return True
             if isinstance(e, ast.Subscript) and isinstance(e.value, ast.Attribute) and e.value.attr == attr:
                 return True            # element of the table (inner container)
+            if isinstance(e, ast.Call) and isinstance(e.func, ast.Attribute) and e.func.attr in ("get", "setdefault") \
+                    and isinstance(e.func.value, ast.Attribute) and e.func.value.attr == attr:
+                return True            # element of the table, looked up tolerantly
             return isinstance(e, ast.Name) and e.id in aliases
         for n in A.walk_no_nested(f.node):
             if isinstance(n, ast.Assign):
@@ -405,8 +408,9 @@ def run(ctx: Ctx):
     # writer, readers and purge of the flat transaction tables agree on the key
     from .common_node import transaction_table_keys
     transaction_table_keys(ctx, "C19-G7")
-    from .common_node import routed_record_rechecked
+    from .common_node import routed_record_rechecked, received_records_rechecked
     routed_record_rechecked(ctx, "C19-G8")
+    received_records_rechecked(ctx, "C19-G9")
     ctx.include(_c06_run, {"C06-R3"}, "C19-G4d",
                 "a connection refused by receive_cer is left in a state that the I/O loop or the "
                 "timers tear down (CLOSING, or CONNECTED until the CER time-out): stored in any "
